@@ -809,13 +809,14 @@ fn name_variants(n: &str) -> Vec<String> {
     if n.to_lowercase() != n {
         v.push(n.to_lowercase());
     }
-    let k = n.len() - 1;
+    // the last CHARACTER (a name already renamed by a stacked mutation may end in a multi-byte one)
+    let k = n.char_indices().last().map(|(i, _)| i).unwrap_or(0);
     v.push(format!("{}{}", &n[..k], n[k..].to_uppercase()));
     for b in ["\u{a0}", "\u{3000}", "\u{2003}", "\u{2028}", "\u{85}", "\u{b}", "\u{c}", "\u{1}", "\u{1f}", "\u{7f}", "\u{200b}", "\u{feff}"] {
         v.push(format!("{}{}", n, b));
         v.push(format!("{}{}", b, n));
     }
-    if n.len() > 1 {
+    if k > 0 {
         v.push(n[..k].to_string());
     }
     v
